@@ -14,6 +14,10 @@
  *   short       (ii) every string of length <= L over the alphabet "tcp:[]*.-+019a " after each
  *               transport prefix and with no prefix (L = --ltcp for "tcp:", --lother for the rest;
  *               C12.py: quick 6/5 plain + 5/4 sanitizer, thorough 7/6 plain + 6/5 sanitizer)
+ *   v6long      full 8-group and full mixed-notation IPv6 spellings (37..45 characters) in brackets x
+ *               every suffix of length 1..3 over "0159afg.:%/][*-" and named suffixes; every IPv6
+ *               host form x boundary ports x every transport (legacy IPv4-only entry points must
+ *               refuse them: EINVAL, outputs untouched)
  *   ports/misc  (iii) structured families around every limit: port field over [-2,70000] and
  *               2^31-1..20 digits, empty/signed/leading-zero/junk ports, host lengths 0..513,
  *               total lengths 577..4096, proto lengths 0..600, every byte value 1..255 in every
@@ -1085,6 +1089,7 @@ struct pres {                   /* what a parser returned */
     char ux[OUT_BLK + 1];       /* ux parsers / parse_proto */
     bool ux_term;
     bool underflow, overflow;
+    bool touched;               /* legacy IPv4 parsers: *ip or *port differ from what they held before the call */
 };
 
 static void decode_ip(struct pres *p, const struct xcm_addr_ip *ip)
@@ -1110,7 +1115,7 @@ static void pres_reset(struct pres *p)
     p->port = 0;
     p->name[0] = 0;
     p->ux[0] = 0;
-    p->name_term = p->ux_term = p->underflow = p->overflow = false;
+    p->name_term = p->ux_term = p->underflow = p->overflow = p->touched = false;
 }
 
 static void call_begin(const struct fdesc *f, const char *in, size_t n, bool dup)
@@ -1175,6 +1180,7 @@ static void call_ip4_parse(const struct fdesc *f, const char *in, size_t n, bool
     p->rc = f->u.ip4_parse(in, g_ip4, g_port);
     p->err = errno;
     p->kind = H_NONE;
+    p->touched = *g_ip4 != 0xA5A5A5A5 || *g_port != 0xA5A5;
     if (p->rc != 0)
         return;
     p->port = (unsigned)(((const uint8_t *)g_port)[0] << 8 | ((const uint8_t *)g_port)[1]);
@@ -1668,7 +1674,27 @@ static void check_string(const char *s, size_t n, bool dup, const struct origin 
                               "single token, no documented form contains blanks or line breaks", wst);
             }
         }
+        /* the pre-IPv6 entry points (in_addr_t result) cannot represent an IPv6 host or [*]: by the
+         * MODEL's reading of the string (not the current parser's) they must refuse it, with EINVAL
+         * and without having stored anything */
+        bool legacy6 = k >= 4 && k < 7 && f->tp == own && mown.hp && mown.v != V_REJECT &&
+            !mown.host_free && mown.host.kind == H_IP6;
+        bool legacy6_def = legacy6 && mown.v == V_ACCEPT;      /* errno / outputs: definite strings only */
+        if (legacy6) {
+            if (p.rc == 0)
+                parse_finding("C12/legacy-ipv4-parse-accepts/host=ipv6", f, in, n, &p,
+                              "the host is an IPv6 address (or [*]); an in_addr_t cannot hold it - the first "
+                              "four of its sixteen bytes were returned as an IPv4 address");
+            else if (legacy6_def && p.rc == -1 && p.err != EINVAL)
+                parse_finding("C12/legacy-ipv4-parse/host=ipv6/errno-not-EINVAL", f, in, n, &p,
+                              "an IPv6 host must be refused with EINVAL");
+            if (legacy6_def && p.rc != 0 && p.touched)
+                parse_finding("C12/legacy-ipv4-parse/host=ipv6/outputs-modified", f, in, n, &p,
+                              "the call failed but *ip / *port no longer hold what they held before it");
+        }
         bool same = (p.rc == 0) == want;
+        if (legacy6 && p.rc == 0)
+            same = true;        /* said above, with the specific signature */
         if (same && want) {
             if (k < 7)
                 same = p.port == r->port && p.kind == r->kind &&
@@ -2478,6 +2504,106 @@ static void fam_misc(void)
     }
 }
 
+/* (iii-v6) maximal-length IPv6 spellings followed by junk inside the brackets, and the complete
+ * product IPv6 host x port x transport for the legacy IPv4-only entry points.
+ * Spellings: full 8-group form (39 characters) and full mixed notation, six 4-digit groups plus a
+ * dotted quad of every length 7..15 (37..45 characters; 45 = INET6_ADDRSTRLEN-1 is the longest
+ * text an IPv6 address has).  Suffixes: every string of length 1..3 over a 15-letter junk
+ * alphabet, and named ones.  The verdict is the model's (m_ipv6 on the exact bracket content);
+ * glibc's inet_pton on the same content is consulted as a self-check of the model (INFO line). */
+#include <arpa/inet.h>
+static void v6_selfcheck(const char *content)
+{
+    uint8_t ip[16];
+    struct in6_addr a;
+    enum verdict v = m_ipv6(content, strlen(content), ip);
+    int r = inet_pton(AF_INET6, content, &a);
+    if ((v == V_ACCEPT && (r != 1 || memcmp(ip, a.s6_addr, 16) != 0)) || (v == V_REJECT && r == 1)) {
+        struct tb t = { 0 };
+        tb_f(&t, "reference recogniser says %s for the IPv6 text ", vname[v]);
+        tb_cstr(&t, content, strlen(content));
+        tb_f(&t, " but inet_pton returns %d", r);
+        info("model-disagrees-with-inet_pton", &t);
+        free(t.p);
+    }
+}
+
+static void fam_v6long(void)
+{
+    static const char *const FULL8[] = {
+        "0000:0000:0000:0000:0000:ffff:7f64:6465", "ffff:ffff:ffff:ffff:ffff:ffff:ffff:ffff",
+        "2001:0db8:85a3:0000:0000:8a2e:0370:7334", "FE80:0000:0000:0000:0202:B3FF:FE1E:8329",
+    };
+    static const char *const BASE6[] = { "0000:0000:0000:0000:0000:ffff:", "fe80:0000:0000:0000:0202:b3ff:" };
+    static const char *const QUADS[] = {        /* lengths 7..15 */
+        "1.2.3.4", "1.2.3.40", "1.2.30.40", "1.20.30.40", "10.20.30.40", "10.20.30.100", "10.20.100.100",
+        "10.100.100.100", "127.100.100.101", "255.255.255.255", "127.100.100.1", "127.100.100.10",
+    };
+    static const char JUNK[] = "0159afg.:%/][*-";
+    static const char *const NAMED[] = {
+        ".evil.example", "%eth0", "%1", "/64", "]", "]]", "0", "1", "01", "55", "155", "0155", "00000000",
+        ":0", "::", ":0000", ".1", ".0.0.1", "x", "-", "_", "@", "#", "?", "=", "\\", "%25eth0", "1234567890",
+    };
+    char spell[40][64];
+    int ns = 0;
+    for (size_t i = 0; i < sizeof FULL8 / sizeof FULL8[0]; i++)
+        snprintf(spell[ns++], 64, "%s", FULL8[i]);
+    for (size_t b = 0; b < sizeof BASE6 / sizeof BASE6[0]; b++)
+        for (size_t q = 0; q < sizeof QUADS / sizeof QUADS[0]; q++)
+            snprintf(spell[ns++], 64, "%s%s", BASE6[b], QUADS[q]);
+
+    for (int k = 0; k < ns; k++) {
+        char content[96];
+        v6_selfcheck(spell[k]);
+        /* the spelling itself, on every host:port transport */
+        for (int t = 0; t < NHP; t++) {
+            Sf("%s:[%s]:4711", tp_name[t], spell[k]);
+            for (size_t j = 0; j < sizeof NAMED / sizeof NAMED[0]; j++) {
+                Sf("%s:[%s%s]:4711", tp_name[t], spell[k], NAMED[j]);
+                if (t == 0) {
+                    snprintf(content, sizeof content, "%s%s", spell[k], NAMED[j]);
+                    v6_selfcheck(content);
+                }
+            }
+        }
+        /* every junk suffix of length 1..3 (tcp; btls for the longest spellings) */
+        for (int tl = 1; tl <= 3; tl++) {
+            int idx[3] = { 0, 0, 0 };
+            for (;;) {
+                char suf[4] = { 0 };
+                for (int i = 0; i < tl; i++)
+                    suf[i] = JUNK[idx[i]];
+                Sf("tcp:[%s%s]:4711", spell[k], suf);
+                if (strlen(spell[k]) >= 43)
+                    Sf("btls:[%s%s]:80", spell[k], suf);
+                snprintf(content, sizeof content, "%s%s", spell[k], suf);
+                v6_selfcheck(content);
+                int i = tl - 1;
+                while (i >= 0 && ++idx[i] == (int)(sizeof JUNK - 1))
+                    idx[i--] = 0;
+                if (i < 0)
+                    break;
+            }
+        }
+    }
+
+    /* legacy IPv4-only entry points: every IPv6 host form x boundary ports x every transport */
+    for (int t = 0; t < NT; t++) {
+        for (size_t p = 0; p < sizeof BOUNDARY_PORTS / sizeof BOUNDARY_PORTS[0]; p++) {
+            for (size_t k = 0; k < sizeof V6_FORMS / sizeof V6_FORMS[0]; k++)
+                Sf("%s:[%s]:%u", tp_name[t], V6_FORMS[k], BOUNDARY_PORTS[p]);
+            for (int k = 0; k < ns; k++)
+                Sf("%s:[%s]:%u", tp_name[t], spell[k], BOUNDARY_PORTS[p]);
+            for (int h = 0; h < N_HOSTS; h++)
+                if (HOSTS[h].kind == H_IP6) {
+                    char txt[64];
+                    f_ipv6(HOSTS[h].ip, txt);
+                    Sf("%s:[%s]:%u", tp_name[t], txt, BOUNDARY_PORTS[p]);
+                }
+        }
+    }
+}
+
 /* parse capacities: xcm_addr_parse_ux/_uxf/xcm_addr_ux_parse and xcm_addr_parse_proto with
  * every capacity 0..len+2 (the 19-call check above uses the always-sufficient sizes) */
 static void capacity_case(const struct fdesc *f, const char *s, size_t n, size_t cap)
@@ -2534,7 +2660,7 @@ static void fam_parse_capacity(void)
 /* batch table                                                                            */
 /* ====================================================================================== */
 
-enum bkind { B_MAKE_ALL, B_MAKE_BND, B_MAKE_UX, B_SHORT, B_PORTS, B_MISC, B_PCAP };
+enum bkind { B_MAKE_ALL, B_MAKE_BND, B_MAKE_UX, B_SHORT, B_PORTS, B_MISC, B_PCAP, B_V6LONG };
 struct batch {
     enum bkind kind;
     int a, b;                   /* make function / host, prefix, transport */
@@ -2639,6 +2765,9 @@ static void build_batches(void)
     b = batch_add(B_PCAP);
     b->weight = 1000;
     snprintf(b->desc, sizeof b->desc, "parse capacities");
+    b = batch_add(B_V6LONG);
+    b->weight = 230000.0 * 19;
+    snprintf(b->desc, sizeof b->desc, "v6long: maximal IPv6 spellings + junk; legacy IPv4 parsers x IPv6 hosts");
 }
 
 static void run_batch(const struct batch *b)
@@ -2651,6 +2780,7 @@ static void run_batch(const struct batch *b)
     case B_PORTS: fam_ports(b->a); break;
     case B_MISC: fam_misc(); break;
     case B_PCAP: fam_parse_capacity(); break;
+    case B_V6LONG: fam_v6long(); break;
     }
 }
 
